@@ -114,7 +114,10 @@ class JsonSchemaParser:
         readonly = schema.get('readOnly')
         writeonly = schema.get('writeOnly')
         aliases = schema.get('x-aliases')
-        kwargs.update(self.get_constraints(schema))
+        constraints = self.get_constraints(schema)
+        if type in (float, constant.Decimal):
+            constraints = self.float_bounds(constraints, type)
+        kwargs.update(constraints)
         kwargs.update(
             alias=alias,
             default=default,
@@ -203,6 +206,8 @@ class JsonSchemaParser:
                 t = LogicalType.not_of(*condition_types)
 
         if constraints:
+            if t in (float, constant.Decimal):
+                constraints = self.float_bounds(constraints, t)
             return Rule.annotate(
                 t,
                 name=name,
@@ -210,6 +215,18 @@ class JsonSchemaParser:
                 constraints=constraints
             )
         return t
+
+    @classmethod
+    def float_bounds(cls, constraints: dict, t: type = float) -> dict:
+        # integer-valued bounds of a 'number' schema are not integer bounds:
+        # exclusiveMinimum 1 / exclusiveMaximum 2 still admits 1.5
+        # (and a Rule wants its bounds in the type of its values)
+        constraints = dict(constraints)
+        for k in ('gt', 'ge', 'lt', 'le'):
+            v = constraints.get(k)
+            if isinstance(v, (int, float)) and not isinstance(v, bool):
+                constraints[k] = t(str(v)) if t is constant.Decimal else float(v)
+        return constraints
 
     TYPE_KEYWORDS = {
         'object': ('properties', 'required', 'additionalProperties', 'minProperties', 'maxProperties',
